@@ -30,7 +30,7 @@ MANIFEST = {
     "text": "For each gate shape and each map shape the commutation identity is a symbolic identity decided by sympy for all symbol values; shapes (gate kinds, wrapper nestings up to depth 2, map kinds) are enumerated exhaustively from a fixed pool - bounded in the shapes, so the level is 'other'. sympy's subs/simplify are trusted.",
     "note": "Trusted: sympy subs / simplify / free_symbols; Engine F summaries. Bound: the enumerated pool of gates, wrappers (depth <= 2) and maps.",
 }
-TRUSTED = ["sympy 1.9 (subs, simplify, free_symbols) as executed natively", "vfw/frame.py"]
+TRUSTED = ["props/C06struct.py: wrapped gates, parameters and symbol maps opaque; sub_symbols / get_free_symbols and the wrapped gate's own methods uninterpreted", "sympy 1.9 (subs, simplify, free_symbols) as executed natively", "vfw/frame.py"]
 ASSUMPTIONS = ["sympy.simplify(A - B) == 0 is accepted as a decision of A == B for all symbol values (sound if sympy is)", "bounded in gate / wrapper / map shapes (listed)"]
 EXTRA = {"explanation": "symbolic identities decided by sympy on the real gate objects; frame obligations decided statically"}
 F_OPS = [G + ":MatrixFactoryGate.bind", G + ":ControlledGate.bind", G + ":Dagger.bind", G + ":GateOperation.bind", G + ":MatrixFactoryGate.free_symbols", G + ":Power.free_symbols",
